@@ -70,7 +70,9 @@ def check(run):
     rows = arb.evaluate(run, cases)
     judge(run, cases, rows)
     part = [c for c in cases if not c.get("error") and c["tls_passthrough"]][: (80 if run.tier == "quick" else 1500)]
-    judge_served(run, part, arb.evaluate(run, part, fn="ctl_case", extra=arb.ctl_term, tag="arbctl"))
+    crow = arb.evaluate(run, part, fn="ctl_case", extra=arb.ctl_term, tag="arbctl")
+    judge_served(run, part, crow)
+    arb.judge_delivery(run, part, crow, "C01", "the owner is then chosen among objects that are not the current ones (a re-created object keeps the age of its predecessor)")
     run.cov["controller_level_histories"] = len(part)
     for c in cases[:2]:
         run.sample(arb.summarize_case(c))
